@@ -234,3 +234,80 @@ class Check:
             self.pid, self.tier, self.cov["evaluations"], self.cov["distinct_nontrivial"], self.cov["exhaustive"],
             len(self.violations), len(self.known_hit), wall))
         sys.exit(1 if self.violations else 0)
+
+
+# --------------------------------------------------------------------------------------------
+# parallel map over chunks with one worker process per pool process
+
+_workers = {}
+
+
+def get_worker(variant="plain", **kw):
+    key = (variant, os.getpid())
+    w = _workers.get(key)
+    if w is None or w.p is None:
+        w = Worker(variant, **kw)
+        _workers[key] = w
+    return w
+
+
+def drop_worker(variant="plain"):
+    key = (variant, os.getpid())
+    w = _workers.pop(key, None)
+    if w:
+        w.close()
+
+
+def pmap(fn, chunks, check=None, nproc=16, prebuild=("plain",)):
+    """yield fn(chunk) results (unordered). Stops handing out work at the check's deadline."""
+    import multiprocessing as mp
+    for v in prebuild:
+        worker_exe(v)          # build once in the parent, not 16 times concurrently
+    chunks = list(chunks)
+    if nproc <= 1 or len(chunks) <= 1:
+        for c in chunks:
+            if check and check.expired():
+                check.cov["exhaustive"] = False
+                return
+            yield fn(c)
+        return
+    ctx = mp.get_context("fork")
+    with ctx.Pool(nproc) as pool:
+        pending = []
+        it = iter(chunks)
+        done = False
+        inflight = 0
+        import collections
+        q = collections.deque()
+        def feed():
+            nonlocal done, inflight
+            while not done and inflight < nproc * 2:
+                if check and check.expired():
+                    done = True
+                    check.cov["exhaustive"] = False
+                    break
+                try:
+                    c = next(it)
+                except StopIteration:
+                    done = True
+                    break
+                q.append(pool.apply_async(fn, (c,)))
+                inflight += 1
+        feed()
+        while q:
+            r = q.popleft()
+            res = r.get()
+            inflight -= 1
+            feed()
+            yield res
+
+
+def chunked(seq, n):
+    buf = []
+    for x in seq:
+        buf.append(x)
+        if len(buf) >= n:
+            yield buf
+            buf = []
+    if buf:
+        yield buf
